@@ -1065,6 +1065,7 @@ class ExcelCompiler:
 
     def _process_gen_graph(self):
 
+        failure = None
         while self.graph_todos:
             # connect the dependant cells in the graph
             dependant = self.graph_todos.pop()
@@ -1072,11 +1073,20 @@ class ExcelCompiler:
             self.log.debug(f"Handling {dependant.address}")
 
             for precedent_address in dependant.needed_addresses:
-                if precedent_address.address not in self.cell_map:
-                    self._gen_graph(precedent_address, recursed=True)
+                try:
+                    if precedent_address.address not in self.cell_map:
+                        self._gen_graph(precedent_address, recursed=True)
 
-                self.dep_graph.add_edge(
-                    self.cell_map[precedent_address.address], dependant)
+                    self.dep_graph.add_edge(
+                        self.cell_map[precedent_address.address], dependant)
+                except Exception as exc:
+                    # a precedent that can not be loaded (a linked workbook,
+                    # a sheet that does not exist) must not cost the other
+                    # cells in the queue their edges
+                    failure = failure or exc
+
+        if failure is not None:
+            raise failure
 
         # calc the values for ranges
         try:
